@@ -195,6 +195,15 @@ func main() {
 	// virtual files
 	add := func(virtual, real string) { overlay[filepath.Join(conn, virtual)] = real }
 	add("verifhook/hook.go", filepath.Join(*harness, "verifhook", "hook.go.txt"))
+	// the hub instance builder of the verification module, compiled inside the connector module (C08, Minter half)
+	hubDir := filepath.Join(filepath.Dir(*harness), "mc", "hub")
+	hubFiles, _ := filepath.Glob(filepath.Join(hubDir, "*.go"))
+	for _, f := range hubFiles {
+		if strings.HasSuffix(f, "_test.go") {
+			continue
+		}
+		add(filepath.Join("verifhub", filepath.Base(f)), f)
+	}
 	add("tx_committer/verif_stub.go", filepath.Join(*harness, "stub", "committer_stub.go.txt"))
 	hs, _ := filepath.Glob(filepath.Join(*harness, "harness", "*.go.txt"))
 	sort.Strings(hs)
